@@ -61,7 +61,7 @@ CHECKS = {
         design="§3 C04"),
     "C05": dict(
         text="Lean theorems: coherence is preserved by any finite history of update/regenerate steps (induction over the op list) and by the "
-             "kernels' accept/reject select; update weights telescope; after any history score = -assess(choices; recorded args) for every program incl. Cond. Tie: random op histories on the real code, every intermediate trace "
+             "kernels' accept/reject select (whole-trace and lane-wise) and by particle gathering with ancestor indices when every field INCLUDING the per-particle arguments is gathered (proved counterexample when the arguments are not), by induction over histories mixing update / regenerate / gather / lane-select / vmapped kernels; update weights telescope; after any history score = -assess(choices; recorded args) for every program incl. Cond. Tie: random op histories on the real code, every intermediate trace "
              "compared with the Lean model and re-assessed by the reference semantics.",
         note=TB + "C05: kernels (mh/mala/hmc), lane indexing and jit round trips are covered by the correspondence run on a real-distribution model.",
         technique="Lean 4 proof (invariant by induction over histories) + differential correspondence on op sequences",
@@ -70,7 +70,7 @@ CHECKS = {
         text="Lean theorems over any linearly ordered floor field, all weight vectors (non-negative, positive sum), all N, all offsets u in (0,1): "
              "ancestor indices valid, copies sum to N, floor/ceil bound, closed-form copy count, estimate invariance of resample, faithful copy, "
              "diagnostic weights; over the reals: the copy count is integrable in the offset and its integral over u in [0,1] is N*w_i (systematic "
-             "resampling unbiased); categorical/multinomial resampling: normalised law over ancestor vectors and E[copies_i] = N*w_i (any field). Tie: seed(resample) on rational weight vectors, offset recovered from the key, indices vs the Lean model; "
+             "resampling unbiased); categorical/multinomial resampling: normalised law over ancestor vectors and E[copies_i] = N*w_i (any field); the resampled particle collection is a coherent TRACE for the gathered arguments (each particle = its ancestor with the ancestor's arguments), counterexample when the arguments are not gathered. Tie: seed(resample) on rational weight vectors, offset recovered from the key, indices vs the Lean model; "
              "copy-consistency of every trace leaf; calibrated expectation test for both methods.",
         note=TB + "C12: the categorical theorem is about the finite-distribution model of categorical.sample; the draws themselves are TFP's (trusted), checked statistically at z=5.5.",
         technique="Lean 4 + Mathlib proof + differential correspondence with recovered randomness",
@@ -78,9 +78,9 @@ CHECKS = {
     "C18": dict(
         text="Lean theorems for every kernel / initial state / n_steps / burn_in / thinning>=1: the retained states are the kernel iterates "
              "after steps burn_in + i*thinning, accept flags aligned with exactly those steps, count = ceil((n-b)/k), acceptance count = "
-             "number of retained accepted steps, and chain(b,k) is that slice of chain(0,1). Tie: seed(chain(kernel)) over a grid of "
+             "number of retained accepted steps, and chain(b,k) is that slice of chain(0,1); acceptance_rate is the mean of the RETURNED flags (a genuine quotient, in [0,1]); multi-chain runs: lane c of every stacked field is the single-chain run of lane c's kernel, leading axis = n_chains, reported rate = mean of per-chain rates = mean of all returned flags; n_chains = 1 has no chain axis; seeded view: application j uses fold(j). Tie: seed(chain(kernel)) over a grid of "
              "(kernel, n, b, k, chains) with the same key vs its un-thinned run, vs manual iteration of the seeded kernel with the "
-             "per-iteration keys, and vs the Lean model fed the recorded run.",
+             "per-iteration keys, and vs the Lean model (Chain.runChain, single and multi-chain) fed the recorded un-thinned runs: every field incl. the rates.",
         note=TB + "C18: 'independent randomness across chains' rests on C07/C08; multi-chain runs are checked for the chain axis and distinct chains only.",
         technique="Lean 4 proof + differential correspondence (same-key slice identity)",
         design="§3 C18"),
@@ -117,7 +117,7 @@ CHECKS = {
         design="§3 C06"),
     "C07": dict(
         text="Partial. Lean theorem for every program shape (sequences, nested scans, cond in scan, scan in cond, any lengths): the keys handed "
-             "to the sample sites of one seeded run are pairwise distinct and none is derived from another. Tie: keys observed through a "
+             "to the sample sites of one seeded run are pairwise distinct and none is derived from another; a vectorised site (any nest of modular_vmaps, batched or not) makes ONE sampler call with one key and sample_shape = unbatched lanes ++ own shape, every lane reads its own distinct entries of that one joint draw, and all scalar draws of a run have distinct (key, position) coordinates. Tie: keys observed through a "
              "key-revealing probe sampler = the model's key paths; real-distribution programs with equal parameters never return equal "
              "values; correlation/marginal tests over key batches.",
         note=TB + "C07 (partial): statistical independence of distinct threefry keys and per-site distributional correctness are the PRNG/TFP contract (trusted, calibrated tests only).",
@@ -134,10 +134,10 @@ CHECKS = {
         design="§3 C14"),
     "C09": dict(
         text="Partial. Lean theorems (any ordered field / dimension / force field): MH accept rule = detailed balance; leapfrog^n followed by a momentum "
-             "flip is an involution; rejection returns the input. Tie: one kernel step of mh / mala / hmc with scripted internal randomness "
+             "flip is an involution; rejection returns the input; the log acceptance ratios AS THE CODE COMPUTES THEM are in the model (malaLogAlpha, hmcLogAlpha): mala's is the log MH ratio of the Langevin kernel (normalisers cancel in every dimension), antisymmetric, hence pi*q*min(1,e^alpha) satisfies detailed balance; hmc's is the energy difference, negated on the reversed trajectory, zero for an energy-conserving run, hence detailed balance for exp(-H). Tie: one kernel step of mh / mala / hmc with scripted internal randomness "
              "(noise, momentum, accept uniform) on scalar, array-valued, Vmap-, Scan- and Cond-addressed targets incl. the mixture-indicator move: "
              "proposal, log acceptance ratio, accept decision, resulting trace, untouched unselected choices vs an independent JAX/scipy "
-             "implementation of the MH rule for the stated proposals; mh's proposal = seeded regenerate under the same key.",
+             "implementation of the MH rule for the stated proposals AND vs the Lean model run by the driver on the same state/noise (targets expressed as exact quadratic forms), with accept/reject bracketing of the implementation's decision around the model's log alpha; mh's proposal = seeded regenerate under the same key.",
         note=TB + "C09 (partial): leapfrog volume preservation and the Gaussian proposal density formula are cited mathematics; invariance of the posterior follows from detailed balance given C03/C04 weights; statistical invariance tests are not part of the quick tier.",
         technique="Lean 4 + Mathlib proof of the kernel cores + differential correspondence with scripted randomness",
         design="§3 C09"),
@@ -159,10 +159,10 @@ CHECKS = {
              "of sites, any mix of flip_enum / flip_enum_parallel / flip_reinforce / flip_mvd / categorical_enum_parallel / finite REINFORCE, later parameters "
              "and control flow depending on earlier outcomes) the interpreter's dual averages to the exact value and exact derivative (induction on the program, "
              "MVD modelled with its second, forward-sampled continuation run); categorical/flip parallel enumeration exact; softmax duals normalised; truncated "
-             "geometric REINFORCE unbiased. Tie: expectation programs with 1-3 sites run on the real code with "
+             "geometric REINFORCE unbiased; the driver's program report (what the harness compares) is proved to have total mass 1 and mean = exact whenever it prints its guards as true. Tie: expectation programs with 1-3 sites run on the real code with "
              "the primitives' internal Bernoulli sampler replaced by an oracle that exhaustively explores every internal outcome (weights = the "
              "probabilities actually used): weighted mean of value and tangent vs closed forms; per-outcome duals vs the Lean model; seeded "
-             "Monte-Carlo for programs whose continuations sample on their own; categorical/parallel enumeration, batched sites, pathwise identity.",
+             "Monte-Carlo for programs whose continuations sample on their own; categorical/parallel enumeration, batched sites, pathwise identity; multi-site programs written ONCE and run both as genjax functions (every internal draw answered by an exhaustive oracle) and as terms of the Lean program model: the full distribution of (probability, value, tangent) outcomes and its mean are compared.",
         note=TB + "C11: reparameterised primitives = JAX's pathwise JVP (trusted); continuous score-function sites are checked by calibrated means only.",
         technique="Lean 4 + Mathlib proof + differential correspondence with exhaustive enumeration of the estimators' internal randomness",
         design="§3 C11"),
@@ -177,9 +177,9 @@ CHECKS = {
         design="§3 C15"),
     "C17": dict(
         text="Lean theorems: the ELBO draw equals log p(x) at the exact posterior (field identity); E_q[log p - log q] <= log sum p over finite "
-             "support (Gibbs, real logs); the optimiser returns n iterates, iterate i = i+1 ascent steps, each step params + lr*grad. Tie: "
+             "support (Gibbs, real logs); the optimiser returns n iterates, iterate i = i+1 ascent steps, each step params + lr*grad; the objective AS vi.py EVALUATES IT is in the GFI model (family trace, merge with the constraint - the family wins on a shared address, assess of the target, plus the family score): per draw it equals log p(x,z) - log q(z) and nothing else makes it defined; E_q[p(x,z)/q(z)] = evidence under domination; E_q[log ratio] = sum q (log p - log q) <= log evidence; every draw equals p(x) at the exact posterior. Tie: "
              "conjugate Gaussian targets, mean-field / full-covariance / structured score-function families on the real code: per-draw tightness, "
-             "mean ELBO and mean gradient vs closed forms, optimize_vi history vs the Lean optimiser on rational gradients.",
+             "mean ELBO and mean gradient vs closed forms, optimize_vi history vs the Lean optimiser on rational gradients; discrete flip/categorical target-family pairs: exp(elbo.estimate) per enumerated draw vs the exact rational model ratio, sum q*ratio = evidence.",
         note=TB + "C17: unbiasedness of the gradient rests on C11; continuous expectations are compared statistically (CLT band z<5.5) with closed forms obtained from exact Gaussian integrals of quadratic integrands.",
         technique="Lean 4 + Mathlib proof + differential correspondence on conjugate targets",
         design="§3 C17"),
